@@ -98,6 +98,7 @@ func (c *c10ctx) permits(fn *ssa.Function) permits {
 	var anc []ssa.Value
 	var old []ssa.Value
 	var tagTests []ssa.Value
+	dstNames := c.dstNames(fn)
 	eachCall(fn, func(ci ssa.CallInstruction) {
 		call, ok := ci.(*ssa.Call)
 		if !ok {
@@ -123,7 +124,14 @@ func (c *c10ctx) permits(fn *ssa.Function) permits {
 		}
 		if f.Pkg() != nil && f.Pkg().Path() == "strings" && f.Name() == "HasPrefix" && len(call.Call.Args) == 2 {
 			if s, ok := constString(call.Call.Args[1]); ok && (s == "tags/" || s == "refs/tags/") {
-				tagTests = append(tagTests, call)
+				// the test must look at the name a site of this function writes to (the
+				// resolved destination), not at the refspec's text or its source side
+				for _, d := range dstNames {
+					if sameName(call.Call.Args[0], d) {
+						tagTests = append(tagTests, call)
+						break
+					}
+				}
 			}
 		}
 	})
@@ -282,6 +290,54 @@ func (c *c10ctx) permits(fn *ssa.Function) permits {
 		pm.del = nilEdges(fn, ns)
 	}
 	return pm
+}
+
+// dstNames: the ref names the update sites of fn write to — the first string
+// argument of a ref-write call, the value stored into receivePackUpdate.Dst.
+func (c *c10ctx) dstNames(fn *ssa.Function) []ssa.Value {
+	var out []ssa.Value
+	for _, s := range c.sites(fn) {
+		switch x := s.in.(type) {
+		case ssa.CallInstruction:
+			for _, a := range x.Common().Args {
+				if b, ok := a.Type().Underlying().(*types.Basic); ok && b.Kind() == types.String {
+					out = append(out, a)
+					break
+				}
+			}
+		case *ssa.Alloc:
+			for _, ref := range *x.Referrers() {
+				if fa, ok := ref.(*ssa.FieldAddr); ok {
+					if f := structField(fa.X.Type(), fa.Field); f != nil && f.Name() == "Dst" {
+						for _, r2 := range *fa.Referrers() {
+							if st, ok := r2.(*ssa.Store); ok {
+								out = append(out, st.Val)
+							}
+						}
+					}
+				}
+			}
+		}
+	}
+	return out
+}
+
+// sameName: the two values denote the same name — the same SSA value, or two calls
+// of the same accessor on the same receiver (r.Dst() … r.Dst()).
+func sameName(a, b ssa.Value) bool {
+	if a == b {
+		return true
+	}
+	ca, ok1 := a.(*ssa.Call)
+	cb, ok2 := b.(*ssa.Call)
+	if !ok1 || !ok2 {
+		return false
+	}
+	fa, fb := ca.Call.StaticCallee(), cb.Call.StaticCallee()
+	if fa == nil || fa != fb || len(ca.Call.Args) != len(cb.Call.Args) || len(ca.Call.Args) != 1 {
+		return false
+	}
+	return ca.Call.Args[0] == cb.Call.Args[0]
 }
 
 func isByte(t types.Type) bool {
